@@ -30,7 +30,9 @@ def model_level(ctx, rnd):
     bad = []
     normal = ("add", ("add", ("mul", ("num", 1, 2), ("sq", ("div", ("sub", ("var", "x"), ("var", "mu")), ("var", "sigma")))),
                       ("log", ("var", "sigma"))), ("mul", ("num", 1, 2), ("log", ("mul", ("num", 2, 1), ("var", "pi")))))
-    for kind in (["logistic_diag_src1", "joint_src1", "logistic_binary"] if ctx.quick else list(zoo.CONFIGS)):
+    # (the mixture model is left out: drawing its individual latent values from the mixture prior raises inside torch -
+    # the state the comparison needs cannot be built; its densities are bound through the sampler traces of C03)
+    for kind in (["logistic_diag_src1", "joint_src1", "logistic_binary"] if ctx.quick else [k for k in zoo.CONFIGS if not k.startswith("mixture")]):
         with warnings.catch_warnings():
             warnings.simplefilter("ignore")
             model, data, df = zoo.make(kind, n_ind=5, seed=rnd.randrange(5), missing=0.2 if "binary" not in kind else 0.0)
